@@ -334,6 +334,25 @@ func checkFreshFrame(r *Run, fn *ssa.Function, rule string) {
 			}
 		})
 		r.Check(sent, rule, fnName(fn)+": the frame just read is what is handed on", c.Pos(), "the object passed on is not the one the frame was read into")
+		// … and only a frame that was read: the hand-over lies on the success edge of the read (a retried, failed
+		// read must not deliver the empty Fcall it left behind)
+		eachInstr(fn, func(in ssa.Instruction) {
+			isSend := false
+			switch x := in.(type) {
+			case *ssa.Send:
+				isSend = x.X == dst
+			case *ssa.Select:
+				for _, st := range x.States {
+					if st.Dir == types.SendOnly && st.Send == dst {
+						isSend = true
+					}
+				}
+			}
+			if isSend {
+				r.Check(callSucceededAt(c, in), rule, fnName(fn)+": a frame is handed on only after it was read successfully", in.Pos(),
+					"the hand-over is reachable after a failed read: an empty frame (tag 0, no message) nobody sent is delivered as a request/reply")
+			}
+		})
 	}
 	r.Floor(rule, n, 1, "ReadFcall in the read loop of "+fnName(fn))
 }
